@@ -670,6 +670,12 @@ def _load_composite_subset_state(rec, context):
 
 @saver(SubsetState)
 def _save_subset_state(state, context):
+    # This saver stores nothing, so it is only valid for the base class itself:
+    # a subclass that ends up here through the MRO has no saver of its own and
+    # would silently be restored as an empty SubsetState.
+    if type(state) is not SubsetState:
+        raise GlueSerializeError("Don't know how to serialize subset state "
+                                 "%r of type %s" % (state, type(state)))
     return {}
 
 
